@@ -4,6 +4,9 @@ import (
 	"bytes"
 	"fmt"
 	"strings"
+
+	"github.com/jf-tech/omniparser"
+	"github.com/jf-tech/omniparser/transformctx"
 )
 
 // c15-run <out.ndjson> <procSeed> [only=<item name>]: one process history. Runs the corpus in a seeded order,
@@ -42,9 +45,114 @@ func c15Run(args []string) int {
 			break
 		}
 	}
+	// several transforms open at once in one goroutine, their Reads alternating: what one of them returns is still a
+	// function of its own schema and input (a neighbour that is in the middle of its input is part of the process history too)
+	if only == "" {
+		byFormat := map[string][]int{}
+		for i, it := range items {
+			if len(it.Input) <= 20000 {
+				byFormat[it.Format] = append(byFormat[it.Format], i)
+			}
+		}
+		for i, it := range items {
+			if len(it.Input) > 20000 {
+				continue
+			}
+			// the partner: the next item of the same format (the same reader code, another input), else the next item
+			peers := byFormat[it.Format]
+			j := (i + 1) % len(items)
+			for k, x := range peers {
+				if x == i && len(peers) > 1 {
+					j = peers[(k+1+int(procSeed))%len(peers)]
+					if j == i {
+						j = peers[(k+1)%len(peers)]
+					}
+				}
+			}
+			a, b := newStepper(it), newStepper(items[j])
+			for !a.done || !b.done {
+				for k := 1 + r.Intn(2); k > 0; k-- {
+					a.step()
+				}
+				for k := 1 + r.Intn(2); k > 0; k-- {
+					b.step()
+				}
+			}
+			occ[it.Name]++
+			lines = append(lines, M{"item": it.Name, "occ": occ[it.Name], "pos": "interleaved with " + items[j].Name, "proc": procSeed, "results": fpAll(a.out, "full")})
+			occ[items[j].Name]++
+			lines = append(lines, M{"item": items[j].Name, "occ": occ[items[j].Name], "pos": "interleaved with " + it.Name, "proc": procSeed, "results": fpAll(b.out, "full")})
+			sum.eval(true, M{"i": it.Name, "j": items[j].Name, "p": procSeed})
+		}
+	}
 	mustWriteNDJSON(outPath, lines)
 	sum.done()
 	return 0
+}
+
+// stepper: the documented read loop of one item, one Read per step (what runTranscript does in one go)
+type stepper struct {
+	tr   omniparser.Transform
+	out  RunOutcome
+	done bool
+	n    int
+}
+
+func newStepper(it *corpusItem) *stepper {
+	s := &stepper{}
+	if it.sch == nil && it.mk != nil {
+		sch, err := it.mk()
+		if err != nil {
+			s.out.NewTrErr, s.done = "schema: "+err.Error(), true
+			return s
+		}
+		it.sch = sch
+	}
+	var err error
+	p, _ := guarded(0, func() {
+		s.tr, err = it.sch.NewTransform("input", bytes.NewReader(it.Input), &transformctx.Ctx{ExternalProperties: it.Ext})
+	})
+	if p != "" {
+		s.out.Panic, s.done = p, true
+	} else if err != nil {
+		s.out.NewTrErr, s.done = err.Error(), true
+	}
+	return s
+}
+
+func (s *stepper) step() {
+	if s.done {
+		return
+	}
+	var r Res
+	p, _ := guarded(0, func() {
+		b, err := s.tr.Read()
+		r = Res{Class: classify(err)}
+		if err != nil {
+			r.Err = err.Error()
+			if b != nil {
+				r.Err += " [non-nil bytes with error]"
+			}
+		} else {
+			r.Out = string(b)
+			if rr, e2 := s.tr.RawRecord(); e2 == nil {
+				r.Sum = rr.Checksum()
+			} else {
+				r.Sum = "ERR:" + e2.Error()
+			}
+		}
+	})
+	if p != "" {
+		s.out.Panic, s.done = p, true
+		return
+	}
+	s.out.Results = append(s.out.Results, r)
+	s.n++
+	if r.Class == "eof" || r.Class == "fatal" {
+		s.done = true
+	} else if s.n >= 100000 {
+		s.out.Unbounded, s.done = true, true
+	}
 }
 
 // c15-sums <out.ndjson>: checksum sensitivity. For every format's record pool: the same record twice (equal checksums),
